@@ -3,6 +3,7 @@
   "a companion's ranges were written into the file it describes".
 -/
 import StsModel.Lemmas.StageLoggedHash
+import StsModel.Lemmas.StageIntegrity
 import StsModel.Props.C09
 
 namespace Sts.Stage
@@ -469,33 +470,185 @@ theorem process_freeList (H : Body → String) (s : State) (n : Name) (now : Int
   · exact FreeList.nil
   · exact FreeList.append (FreeList.of_all (by simp [recFree])) (processCore_freeList _ _ _ _ _)
 
-theorem recover_freeList (H : Body → String) (s : State) (now : Int) (names : List Name) :
-    FreeList (recoverEffects H s now names) := by
+/-- no primitive but the companion's rename creates a companion -/
+def keepsCmp : Prim → Bool
+  | .cmpCommit .. => false
+  | _ => true
+
+theorem keepsCmp_prim (d : Disk) (p : Prim) (h : keepsCmp p = true) :
+    ∀ n c, (applyDisk d p).cmp n = some c → d.cmp n = some c := by
+  intro n c hc
+  cases p with
+  | cmpCommit m now => simp [keepsCmp] at h
+  | rmCmp m =>
+    simp only [applyDisk] at hc
+    by_cases hnm : n = m
+    · subst hnm; simp at hc
+    · simpa [upd_other _ _ _ _ hnm] using hc
+  | rmCmpIf m h0 =>
+    simp only [applyDisk] at hc
+    split at hc
+    · split at hc
+      · by_cases hnm : n = m
+        · subst hnm; simp at hc
+        · simpa [upd_other _ _ _ _ hnm] using hc
+      · exact hc
+    · exact hc
+  | _ => simp only [applyDisk] at hc <;> (try split at hc) <;> exact hc
+
+theorem keepsCmp_run (ps : List Prim) (h : ps.all keepsCmp = true) (t : State) :
+    ∀ n c, (run t ps).disk.cmp n = some c → t.disk.cmp n = some c := by
+  induction ps generalizing t with
+  | nil => intro n c hc; exact hc
+  | cons p ps ih =>
+    simp only [List.all_cons, Bool.and_eq_true] at h
+    intro n c hc
+    exact keepsCmp_prim t.disk p h.1 n c (ih h.2 _ n c hc)
+
+theorem recFree_keepsCmp (ps : List Prim) (h : ps.all recFree = true) : ps.all keepsCmp = true := by
+  simp only [List.all_eq_true] at h ⊢
+  intro p hp
+  have := h p hp
+  cases p <;> simp_all [recFree, keepsCmp]
+
+/-- a name on Recover's validate list has the companion the list carries -/
+theorem recoverWalk_validate_cmp (H : Body → String) (d : Disk) (n : Name) (c : Cmp)
+    (h : (recoverWalk H d n).2 = .validate c) : d.cmp n = some c := by
+  cases hc : d.cmp n with
+  | none => rw [recoverWalk_none H d n hc] at h; cases h
+  | some c0 =>
+    rw [recoverWalk_some H d n c0 hc] at h
+    by_cases h1 : waitMatches H d n c0 = true
+    · rw [if_pos h1] at h; cases h
+    · rw [if_neg h1] at h
+      by_cases h2 : d.full n ≠ none
+      · rw [if_pos h2] at h; cases h; rfl
+      · rw [if_neg h2] at h
+        by_cases h3 : d.part n ≠ none
+        · rw [if_pos h3] at h
+          by_cases h4 : isComplete c0.parts c0.size = true
+          · rw [if_pos h4] at h; cases h; rfl
+          · rw [if_neg h4] at h; cases h
+        · rw [if_neg h3] at h; cases h
+
+/-- the duplicate test of Recover's validate loop answers yes only for a version that is in the
+    receive log (in states where finalized / logged cache entries are backed by the log) -/
+theorem recoverDup_logged (t : State) (n : Name) (c : Cmp) (hl : LoggedHashInv t)
+    (h : recoverDup t.mem n c = true) : LoggedV t.disk n c.hash := by
+  unfold recoverDup at h
+  split at h
+  · rename_i ex hex
+    simp only [decide_eq_true_eq] at h
+    have hst : ex.state = .finalized ∨ ex.state = .logged := by
+      cases hs : ex.state <;> simp [hs, FState.num] at h ⊢
+    rw [← h.2]
+    exact hl n ex hex hst
+  · cases h
+
+/-- the fold invariant of Recover for `RecG`: finalized / logged entries are backed by the log,
+    and no companion is there that was not there when Recover started -/
+def RecQ (s t : State) : Prop :=
+  LoggedHashInv t ∧ ∀ n c, t.disk.cmp n = some c → s.disk.cmp n = some c
+
+theorem RecQ_run (s t : State) (ps : List Prim) (hq : RecQ s t) (hb : ps.all benign = true)
+    (hk : ps.all keepsCmp = true) : RecQ s (run t ps) :=
+  ⟨inv_run LoggedHashInv_step ps t hq.1 (GuardsH_of_all_benign t ps hb),
+   fun n c hc => hq.2 n c (keepsCmp_run ps hk t n c hc)⟩
+
+/-- Recover: the walk, the cache build and the finalize list need no guard; in the validate
+    loop the duplicate branch removes `<n>.full` only for a version that is in the receive log
+    (file first, companion second). -/
+theorem recover_GuardsR (H : Body → String) (s : State) (now : Int) (names : List Name)
+    (hl : LoggedHashInv s) : Guards RecG s (recoverEffects H s now names) := by
   unfold recoverEffects
-  simp only
-  rw [List.append_assoc, List.append_assoc]
-  apply FreeList.append
-  · apply FreeList.of_all
-    simp only [List.all_append, Bool.and_eq_true, List.all_flatMap, List.all_map]
+  extract_lets walk p1 s1 oldest p2 s2 fins vals stepF r3 stepV r4
+  have hp1f : p1.all recFree = true := by
+    simp only [p1, List.all_append, Bool.and_eq_true, List.all_flatMap]
     refine ⟨by simp [recFree], ?_⟩
     simp only [List.all_eq_true]
-    intro n _
-    simp only [Function.comp, List.all_eq_true]
+    intro x hx
+    simp only [walk, List.mem_map] at hx
+    obtain ⟨n, _, rfl⟩ := hx
     intro p hp
     rcases recoverWalk_prims H s.disk n p hp with h | h <;> (subst h; rfl)
-  · apply FreeList.append (FreeList.of_all (buildCache_free _ _ _))
-    apply FreeList.append _ (FreeList.of_all (by simp [recFree]))
-    apply fold_listP FreeList (fun _ _ => FreeList.append)
-    · intro acc x
-      refine ⟨_, ?_, List.append_assoc _ _ _⟩
-      exact FreeList.append (FreeList.of_all (toCache_free _ _ _ _ _)) (processCore_freeList _ _ _ _ _)
-    · apply fold_listP FreeList (fun _ _ => FreeList.append)
-      · intro acc x
-        refine ⟨_, ?_, rfl⟩
-        apply FreeList.of_all
+  have hp1b : p1.all benign = true := by
+    simp only [p1, List.all_append, Bool.and_eq_true, List.all_flatMap]
+    refine ⟨by simp [benign], ?_⟩
+    simp only [List.all_eq_true]
+    intro x hx
+    simp only [walk, List.mem_map] at hx
+    obtain ⟨n, _, rfl⟩ := hx
+    exact List.all_eq_true.mp (recoverWalk_benign H s.disk n)
+  have hp2f : p2.all recFree = true := buildCache_free s1 _ now
+  have hQ1 : RecQ s s1 := RecQ_run s s p1 ⟨hl, fun _ _ h => h⟩ hp1b (recFree_keepsCmp _ hp1f)
+  have hQ2 : RecQ s s2 :=
+    ⟨inv_run LoggedHashInv_step p2 s1 hQ1.1 (GuardsH_of_forall _ _ (buildCache_forall _ _ _)),
+     fun n c hc => hQ1.2 n c (keepsCmp_run p2 (recFree_keepsCmp _ hp2f) s1 n c hc)⟩
+  have hs2 : s2 = run s (p1 ++ p2) := by simp only [s2, s1, run_append]
+  have h12 : Guards RecG s (p1 ++ p2) :=
+    FreeList.of_all (by simp [List.all_append, hp1f, hp2f]) s
+  have h3 := Guards_foldl (G := RecG) (RecQ s) stepF fins
+    (by
+      intro acc x _ hq
+      have hfree : (toCache acc.1.mem x.1 (Entry.ofCmp x.2 .validated) .validated now ++
+          [Prim.fqPush x.1 { Entry.ofCmp x.2 .validated with time := now }]).all recFree = true := by
         simp only [List.all_append, Bool.and_eq_true]
         exact ⟨toCache_free _ _ _ _ _, by simp [recFree]⟩
-      · exact FreeList.nil
+      refine ⟨_, rfl, FreeList.of_all hfree _, RecQ_run s _ _ hq ?_ (recFree_keepsCmp _ hfree)⟩
+      simp only [List.all_append, Bool.and_eq_true]
+      exact ⟨toCache_benign _ _ _ _ _ (by decide) (by decide), by simp [benign]⟩)
+    s2 (s2, []) hQ2 rfl trivial
+  have h4 := Guards_foldl (G := RecG) (RecQ s) stepV vals
+    (by
+      intro acc x hx hq
+      refine ⟨recoverValOne H acc.1 now x, rfl, ?_, ?_⟩
+      · rcases recoverValOne_cases H acc.1 now x with ⟨hdup, h⟩ | ⟨_, h⟩ <;> rw [h]
+        · refine ⟨?_, trivial, trivial, trivial⟩
+          intro c hc
+          have hxc : s.disk.cmp x.1 = some x.2 := by
+            simp only [vals, List.mem_filterMap] at hx
+            obtain ⟨y, hy, hyx⟩ := hx
+            simp only [walk, List.mem_map] at hy
+            obtain ⟨m, _, rfl⟩ := hy
+            simp only at hyx
+            split at hyx
+            · rename_i c' hc'
+              simp only [Option.some.injEq] at hyx
+              subst hyx
+              exact recoverWalk_validate_cmp H s.disk m c' hc'
+            · simp at hyx
+          have : c = x.2 := by
+            have := hq.2 x.1 c hc
+            rw [hxc] at this; cases this; rfl
+          subst this
+          exact Or.inl (recoverDup_logged acc.1 x.1 x.2 hq.1 hdup)
+        · exact FreeList.append (FreeList.of_all (toCache_free _ _ _ _ _))
+            (processCore_freeList _ _ _ _ _) _
+      · apply RecQ_run s _ _ hq
+        · exact recoverValOne_all benign H _ now x rfl rfl rfl
+            (toCache_benign _ _ _ _ _ (by decide) (by decide)) (processCore_benign _ _ _ _ _)
+        · refine recoverValOne_all keepsCmp H _ now x rfl rfl rfl
+            (recFree_keepsCmp _ (toCache_free _ _ _ _ _)) ?_
+          unfold processCore
+          simp only [List.all_append, Bool.and_eq_true]
+          refine ⟨by simp [keepsCmp], ?_⟩
+          split
+          · simp
+          · split
+            · simp only [List.all_append, Bool.and_eq_true]
+              exact ⟨by simp [keepsCmp], recFree_keepsCmp _ (toCache_free _ _ _ _ _)⟩
+            · split
+              · exact recFree_keepsCmp _ (toCache_free _ _ _ _ _)
+              · simp only [List.all_append, Bool.and_eq_true]
+                exact ⟨⟨by simp [keepsCmp], recFree_keepsCmp _ (toCache_free _ _ _ _ _)⟩,
+                  by simp [keepsCmp]⟩)
+    s2 r3 h3.2.2 h3.2.1 h3.1
+  have hall : Guards RecG s ((p1 ++ p2) ++ r4.2 ++ [Prim.setReady true]) := by
+    apply Guards.append
+    · apply Guards.append h12
+      rw [← hs2]; exact h4.1
+    · exact ⟨trivial, trivial⟩
+  simpa [List.append_assoc] using hall
 
 /-! ### newLocalCompanion + addCompanionPart -/
 
